@@ -1,7 +1,54 @@
 import SshAudit.Driver.WireOps
+import SshAudit.Model.Multi
+import SshAudit.Model.Report
+import SshAudit.Gen.KexDB
+import SshAudit.Gen.Tables
 namespace SshAudit.Driver
+open SshAudit SshAudit.Multi
 
-/-- line-protocol operations of the Multi model (stub; filled in when the model lands) -/
-def multiOp (_op : String) (_args : List String) : Option J := none
+def multiProbeNames : List Str := ["aes128-ctr", "aes256-ctr", "3des-cbc", "chacha20-poly1305@openssh.com"].map String.toList
+def multiProbeNotes : List Str := ["note-A", "note-B", "note-C"].map String.toList
+
+/-- steps: `x<t>` thread_exit, `e<t>:<name#>:<note#>` append a warning note to an enc entry, `r<t>:<target>` render -/
+def decStep (tok : String) : Option Step :=
+  let body : String := String.ofList (tok.toList.drop 1)
+  if tok.startsWith "x" then body.toNat?.map Step.threadExit
+  else if tok.startsWith "e" then
+    match body.splitOn ":" with
+    | [t, n, k] => do
+      let t ← String.toNat? t; let n ← String.toNat? n; let k ← String.toNat? k
+      let name ← multiProbeNames[n]?; let note ← multiProbeNotes[k]?
+      pure (Step.edit t (fun db => Report.updateEntry db Report.encC name (Report.appendAt 2 3 note)))
+    | _ => none
+  else if tok.startsWith "r" then
+    match body.splitOn ":" with
+    | [t, x] => do let t ← String.toNat? t; let x ← String.toNat? x; pure (Step.render t x)
+    | _ => none
+  else none
+
+def observeDb (db : DB) : J :=
+  .arr (multiProbeNames.map fun n => match DBm.lookup db Report.encC n with
+    | some e => .arr ((DBm.slot e 2).map (J.ofOpt .str))
+    | none => .null)
+
+def decMultiOutcome (tok : String) : Option Outcome :=
+  match tok.splitOn ":" with
+  | ["r", st, txt] => do let st ← st.toInt?; let txt ← decStr txt; pure (.returned st txt)
+  | ["x", msg] => do let m ← decStr msg; pure (.raised m)
+  | ["e", c, txt] => do let c ← c.toInt?; let txt ← decStr txt; pure (.sysExit c txt)
+  | _ => none
+
+def multiOp (op : String) (args : List String) : Option J :=
+  match op, args with
+  | "multi.exec", [steps] => do
+    let steps ← if steps = "_" then some [] else (steps.splitOn ",").mapM decStep
+    let obs := exec Gen.ssh2db (fun _ => none) steps
+    pure (jok (.arr (obs.map fun (t, x, db) => .arr [.nat t, .nat x, observeDb db])))
+  | "multi.main", [json, outs] => do
+    let json ← decBool json
+    let outs ← if outs = "_" then some [] else (outs.splitOn ",").mapM decMultiOutcome
+    let (out, code) := mainRun Gen.rankedReturnCodes json outs
+    pure (jok (.obj [("stdout", .str out), ("exit", .num code)]))
+  | _, _ => none
 
 end SshAudit.Driver
